@@ -2,7 +2,7 @@
 dynamic invocation of each hook kind, for every k, then PAIRS of faults (bounded); contract: extract returns a Stack, every
 injected exception that was actually raised is retrievable (by identity) from the error tree of the result, frames outward
 of the failure equal the fault-free extraction, and the result formats and summarises.
-Bounds: 10 scenarios; hooks {unwrap_stackitem, FrameIterator.__next__, elaborate_frame, contexts_active_in_frame,
+Bounds: 11 scenarios; hooks {unwrap_stackitem, FrameIterator.__next__, elaborate_frame, contexts_active_in_frame,
 elaborate_context, unwrap_context}; all single faults; pairs (k1<k2) of the same or different hook kinds, capped."""
 import sys, os, types, contextlib, threading, itertools
 sys.path.insert(0, os.path.dirname(__file__))
@@ -10,7 +10,7 @@ from _leg import Leg, THOROUGH
 import stackscope
 from stackscope import _extract as E, _customization as Cu
 
-leg = Leg("c05_faults", "10 scenarios x 6 hook kinds x every dynamic invocation index (single faults, exhaustive) + bounded pairs; "
+leg = Leg("c05_faults", "11 scenarios x 6 hook kinds x every dynamic invocation index (single faults, exhaustive) + bounded pairs; "
                         "non-trivial = fault actually raised; distinct by (scenario, hook, k)")
 
 
@@ -178,6 +178,33 @@ def _elab_hostile(frame, next_inner):
 
 def scenario_hostile_item():
     return CustomHostile(), (lambda: None)
+
+
+STORED = {}
+
+
+def scenario_stored_exception():
+    # the fault a hook raises is an OLD exception that the (still suspended) target itself caught and kept: its traceback refers
+    # to the target's own frames.  Recording it must not touch those frames (clearing a suspended frame closes the coroutine)
+    async def inner_s():
+        try:
+            raise LookupError("kept by the target")
+        except LookupError as e:
+            STORED["exc"] = e
+        with Probe("after-store"):
+            await trap()
+    async def outer_s():
+        with Probe("outer-s"):
+            await inner_s()
+    c = outer_s(); c.send(None)
+    STORED["coro"] = c
+    STORED["inner"] = c.cr_await
+    return c, (lambda: c.close())
+
+
+scenario_stored_exception.exc_factory = lambda label, k: STORED["exc"]
+scenario_stored_exception.after = lambda: (None if (STORED["coro"].cr_frame is not None and STORED["inner"].cr_frame is not None)
+                                           else "a suspended coroutine of the target was closed / unwound by the extraction")
 
 
 def scenario_nonstack():
@@ -348,7 +375,8 @@ PAIR_CAP = 4000 if THOROUGH else 700
 SEEN_F11 = []
 SEEN_F19 = []
 for scen in (scenario_coro, scenario_thread, scenario_slice, scenario_custom, scenario_nonstack, scenario_unwrapped_gcm, scenario_exiting_gcm,
-             scenario_plain_iterator_chain, scenario_plain_iterator_hand, scenario_hostile_item):
+             scenario_plain_iterator_chain, scenario_plain_iterator_hand, scenario_hostile_item,
+             scenario_stored_exception):
     item, cleanup = scen()
     try:
         _, inj0 = check(scen.__name__, item, None, None, {})
@@ -361,8 +389,10 @@ for scen in (scenario_coro, scenario_thread, scenario_slice, scenario_custom, sc
         totals = dict(inj0.count)
         singles = [(label, k) for label, _, _ in HOOKS for k in range(1, totals.get(label, 0) + 1)]
         for label, k in singles:
-            exc = Inj(f"{label}@{k}")
+            exc = scen.exc_factory(label, k) if hasattr(scen, "exc_factory") else Inj(f"{label}@{k}")
             msg, inj = check(scen.__name__, item, basepy, (label, k), {(label, k): exc})
+            if not msg and hasattr(scen, "after"):
+                msg = scen.after()
             leg.case((scen.__name__, label, k), bool(inj.raised), sample=dict(scenario=scen.__name__, hook=label, k=k) if k == 2 and len(leg.samples) < 5 else None)
             if msg and msg.startswith("F19:"):
                 if not SEEN_F19:
